@@ -25,6 +25,15 @@ Theorem C01_refines : forall prog d, db_wf d ->
 Proof. exact refines_strings. Qed.
 Print Assumptions C01_refines.
 
+(* The same without any model database in the statement: the trace of (command, reply) pairs of
+   the run is accepted by the specification read as a state machine over views (time passing
+   between commands removes the keys whose deadline has been reached; clocks non-decreasing). *)
+Theorem C01_refines_trace : forall prog d now0, db_wf d -> clocks_from now0 prog ->
+  Forall (fun s => strings_cmd (s_args s) = true) prog ->
+  accepts (view d now0) now0 (trace d prog).
+Proof. exact refines_trace. Qed.
+Print Assumptions C01_refines_trace.
+
 Theorem C01_run_chained : forall prog d, chained d (run d prog).
 Proof. intros prog d. apply run_chained. Qed.
 Print Assumptions C01_run_chained.
